@@ -1,6 +1,6 @@
 SPECIFICATION Spec
 CONSTANTS
-  ReqBodyLens = {3}
+  ReqBodyLens = {2}
   RespBodyLens = {1}
   ReqHdrLens = {3}
   RespHdrLens = {1}
